@@ -212,6 +212,30 @@ theorem cache_coherent_preserved (hs : Hs D) (cfg : VCfg) (vlogs : List Bytes) (
     c'.Coherent cfg vlogs txLog :=
   coherent_preserved_thm hs cfg vlogs txLog c c' b vOff hVal skip hc h
 
+/-- **Truncation evicts what it made unreadable.** `TruncateUptoTx` removes from the value cache, right
+after `vlog.DiscardUpto(upto)` and with that log still held, every cached value of the log stored before
+`upto` (`VCache.evictUpto`): afterwards such an offset is not in the cache, so a read of it — checked or
+lenient, `ReadValue` or `ExportTx` — answers exactly what the same read answers without a cache (the disk:
+`io.EOF` once the chunk is gone), whatever was cached before.  (Before the repair the cache kept serving
+truncated values and the answer of `ExportTx` depended on what happened to be cached: former finding
+`C07:ExportTx:value-cache-serves-truncated-values`.) -/
+theorem truncated_values_not_served_from_cache (hs : Hs D) (cfg : VCfg) (vlogs : List Bytes) (txLog : Bytes)
+    (c : VCache) (vlog upto : Nat) (b : Bytes) (vOff : Nat) (hVal : D) (skip : Bool)
+    (h1 : vOff / 2 ^ 56 % 256 = vlog) (h2 : vOff % 2 ^ 55 < upto) :
+    (c.evictUpto vlog upto).get vOff = none ∧
+    (readValueAtC hs cfg vlogs txLog (some (c.evictUpto vlog upto)) b vOff hVal skip).2 =
+    (readValueAtC hs cfg vlogs txLog none b vOff hVal skip).2 :=
+  ⟨evictUpto_get_below_thm c vlog upto vOff h1 h2,
+   evicted_read_from_disk_thm hs cfg vlogs txLog c vlog upto b vOff hVal skip h1 h2⟩
+
+/-- … and nothing else is touched: values of other logs and values at or after the discard offset stay
+cached, and a coherent cache stays coherent. -/
+theorem truncation_eviction_keeps_the_rest (cfg : VCfg) (vlogs : List Bytes) (txLog : Bytes)
+    (c : VCache) (vlog upto : Nat) :
+    (∀ k, k / 2 ^ 56 % 256 ≠ vlog ∨ upto ≤ k % 2 ^ 55 → (c.evictUpto vlog upto).get k = c.get k) ∧
+    (c.Coherent cfg vlogs txLog → (c.evictUpto vlog upto).Coherent cfg vlogs txLog) :=
+  ⟨fun k h => evictUpto_get_other_thm c vlog upto k h, evictUpto_coherent_thm cfg vlogs txLog c vlog upto⟩
+
 /-- **K2 (documented limit).** Per-record self-authentication only: replace the entries of a
 well-formed record by ANY other well-formed entries (different keys, metadata, value hashes,
 even a different count) and recompute `NEntries`, `Eh` and the trailing Alh: the resulting
